@@ -23,7 +23,10 @@ from torch.utils._pytree import tree_flatten, tree_map
 
 from . import terms as T
 
-REPO_PREFIX = "/repo/linear_operator/"
+import os as _os
+
+REPO_ROOT = _os.environ.get("VERIF_REPO", "/repo").rstrip("/") + "/"  # seeds are tested from scratch worktrees via VERIF_REPO
+REPO_PREFIX = REPO_ROOT + "linear_operator/"
 
 
 class UnsupportedOp(Exception):
@@ -498,7 +501,7 @@ class Engine(TorchDispatchMode):
         while f is not None:
             fn = f.f_code.co_filename
             if fn.startswith(REPO_PREFIX):
-                return f"{fn[len('/repo/'):]}:{f.f_lineno}:{f.f_code.co_name}"
+                return f"{fn[len(REPO_ROOT):]}:{f.f_lineno}:{f.f_code.co_name}"
             f = f.f_back
         return "harness"
 
@@ -613,7 +616,7 @@ class Engine(TorchDispatchMode):
             code = f.f_code
             fn = code.co_filename
             if fn.startswith(REPO_PREFIX):
-                self.functions.add(fn[len("/repo/"):-3].replace("/", ".") + "." + getattr(code, "co_qualname", code.co_name))
+                self.functions.add(fn[len(REPO_ROOT):-3].replace("/", ".") + "." + getattr(code, "co_qualname", code.co_name))
             f = f.f_back
             depth += 1
 
@@ -641,3 +644,36 @@ def _same_cell(a, b):
     if T.is_term(a) or T.is_term(b):
         return a is b
     return a == b and T.sort_of(a) == T.sort_of(b)
+
+
+from torch.overrides import TorchFunctionMode  # noqa: E402
+
+
+class PyLevelGuard(TorchFunctionMode):
+    """Tensor.tolist() / .numpy() read memory directly and never reach the dispatcher: route them through .item() (which does)
+    so that symbolic integers / booleans flowing into Python become recorded choices instead of silent concretisations."""
+
+    def __init__(self, eng):
+        super().__init__()
+        self.eng = eng
+
+    def _symbolic(self, t):
+        eng = self.eng
+        if not isinstance(t, torch.Tensor) or t.layout != torch.strided or t.is_complex() or not eng.has(t):
+            return False
+        return any(T.is_term(c) for c in eng.view(t).reshape(-1))
+
+    def __torch_function__(self, func, types, args=(), kwargs=None):
+        kwargs = kwargs or {}
+        if func is torch.Tensor.tolist and args and self._symbolic(args[0]):
+            t = args[0]
+
+            def rec(x):
+                if x.dim() == 0:
+                    return x.item()
+                return [rec(x[i]) for i in range(x.shape[0])]
+
+            return rec(t)
+        if func in (torch.Tensor.numpy, torch.Tensor.__array__) and args and self._symbolic(args[0]):
+            raise UnsupportedOp("Tensor.numpy() on symbolic data")
+        return func(*args, **kwargs)
